@@ -560,6 +560,10 @@ def make_strategy_classes():
                         out = market.place_order(order, client=cl) if cl is not None else "noorder"
                 elif k == "NOP":
                     out = "nop"
+                elif k == "W":
+                    # the strategy only consults its runner accounting (creates the context, places nothing)
+                    rc = self.get_runner_context(market.market_id, act[1], act[2] if len(act) > 2 else 0)
+                    out = "watched:%d" % rc.live_trade_count
                 else:
                     raise core.HarnessError("unknown action %r" % (act,))
             except core.HarnessError:
